@@ -78,7 +78,7 @@ def follow(ctx):
     # the unquoted emission: `yield self.encode(v)` on the false edge of `quote_attr`
     unq = []
     for y in ys:
-        if norm(y.ast.value.value) == "self.encode(v)":
+        if any(isinstance(x, ast.Name) and x.id == "v" for x in ast.walk(y.ast.value.value)):
             def pred(n, lab):
                 return n.kind == "test" and norm(n.ast) == "quote_attr" and lab is False
             if cfg.dominated_by(y, pred):
@@ -111,9 +111,11 @@ def escaping(ctx):
     from .c08 import serialize_cfg, yields
     r = ctx.r
     f, cfg = serialize_cfg(ctx)
-    ys = [y for y in yields(cfg) if norm(y.ast.value.value) == "self.encode(v)"]
+    def mentions_v(y):
+        return any(isinstance(x, ast.Name) and x.id == "v" for x in ast.walk(y.ast.value.value))
+    ys = [y for y in yields(cfg) if mentions_v(y)]
     if len(ys) != 2:
-        raise AnalysisError("serialize: expected two attribute value emissions")
+        raise AnalysisError("serialize: expected two attribute value emissions, found %d" % len(ys))
 
     def repl(old, new):
         def p(n):
@@ -128,6 +130,7 @@ def escaping(ctx):
     if len(quoted) != 1:
         raise AnalysisError("serialize: quoted attribute value emission not found")
     q = quoted[0]
+    qexpr = norm(q.ast.value.value)
     tests = [n for n in cfg.nodes if n.kind == "test" and norm(n.ast) in ("quote_char == \"'\"", "quote_char == '\\''", 'quote_char == "\'"')]
     tests = [n for n in cfg.nodes if n.kind == "test" and isinstance(n.ast, ast.Compare) and norm(n.ast.left) == "quote_char"
              and isinstance(n.ast.comparators[0], ast.Constant) and n.ast.comparators[0].value in ("'", '"')]
@@ -146,7 +149,8 @@ def escaping(ctx):
             break
     # the delimiter written is the variable tested
     around = [y for y in yields(cfg) if norm(y.ast.value.value) == "self.encodeStrict(quote_char)"]
-    r.check("Q4", ok and len(around) == 2, "delimiter-escaped", "%s:%d" % (REL, q.lineno),
+    inline = "quote_char + v + quote_char" in qexpr
+    r.check("Q4", ok and (len(around) == 2 or inline), "delimiter-escaped", "%s:%d" % (REL, q.lineno),
             "the quoted attribute value is written without escaping the delimiter in use (%s)" % why,
             detail={"delimiter_variable": "quote_char"})
     src = " ".join(norm(f.node).split())
